@@ -1016,7 +1016,8 @@ class BasePort(logging_utils.LoggableMixin, metaclass=abc.ABCMeta):
                                 self._make_eval_context(port_values={self.get_id(): value})
                             )
                         )
-                    except core_expressions.ValueUnavailable:
+                    except core_expressions.ExpressionEvalError:
+                        # Includes ValueUnavailable; a disabled port or a failing transform must not prevent loading
                         value = None
 
                 await self.write_value(value)
